@@ -34,6 +34,25 @@ func compileTexts(filter compile.SchemaFilter, texts ...string) (ms schema.Model
 	return ms, err
 }
 
+// compileTextsRaw hands the filter on as it is (nil = the API's "no filter")
+func compileTextsRaw(filter compile.SchemaFilter, texts ...string) (ms schema.ModelSet, err error) {
+	defer func() {
+		if r := recover(); r != nil {
+			ms, err = nil, fmt.Errorf("PANIC: %v", r)
+		}
+	}()
+	mods := map[string]*parse.Tree{}
+	for i, t := range texts {
+		tr, e := parse.Parse(fmt.Sprintf("mod%d.yang", i), t, nil)
+		if e != nil {
+			return nil, fmt.Errorf("parse: %w", e)
+		}
+		mods[tr.Root.Argument().String()] = tr
+	}
+	ms, _, err = compile.CompileModulesWithWarnings(nil, mods, "", false, filter)
+	return ms, err
+}
+
 // ---- C13 / C16: derived types, value validation -------------------------------------------------------
 
 var typeBases = []string{"int8", "int16", "int32", "int64", "uint8", "uint16", "uint32", "uint64", "decimal64:1", "decimal64:3", "decimal64:18", "string", "boolean", "empty", "enumeration:a:b:c-d"}
